@@ -84,7 +84,7 @@ MC_INVARIANTS = ["QuiescentConverged", "GrowWins", "DestroyOK"]      # + TLC's d
 
 COVERAGE = bool(os.environ.get("C09_COVERAGE"))
 QUICK = ["resize_seq_m1", "resize_seq_m2", "resize_seq_m4", "resize_seq_m8", "resize_seq_m16", "resize_conc2", "resize_rd", "resize_part_fn", "resize_part_f0", "resize_part_f1", "resize_part_auto", "resize_acct_only",
-         "resize_lazy_chain1", "resize_lazy_seq", "resize_lazy_count_grow", "resize_lazy_count_shrink", "resize_lazy_shrink_race",
+         "resize_lazy_chain1", "resize_lazy_seq", "resize_lazy_count_grow", "resize_lazy_count_shrink", "resize_lazy_shrink_race", "resize_qsbr_lazy", "resize_qsbr_2r",
          "resize_destroy_queued", "resize_destroy_plain", "resize_destroy_eperm"]
 THOROUGH_ONLY = ["resize_conc", "resize_lazy_chain", "resize_part_f2", "resize_nocpu", "resize_destroy_2t", "resize_destroy_helper"]
 
@@ -118,6 +118,7 @@ def sanity(sc):
                 pass
             else:
                 assert o["op"] == "resize" and o["ns"]
+            assert not (sc.get("qsbr") and o["op"] == "destroy"), "qsbr scenarios: the destroy path (is_empty bracket of an online caller) is not modelled"
     assert destroys <= 1
     assert len(sc["sc0"]) == scmask(sc) + 1
 
@@ -138,7 +139,8 @@ def consts(sc, **over):
          "SC0": "[k \\in 0..%d |-> <<%s>>[k + 1]]" % (m, ", ".join("[add |-> %d, del |-> %d]" % (a, d) for a, d in sc["sc0"])),
          "Count0": str(sc["count0"]), "Items0": str(len(sc["pre"]) + len(sc["prex"])), "Growths": tla(set(sc["growths"])), "MaxChk": str(sc["maxchk"]), "MaxChkP": str(sc.get("maxchkp", sc["maxchk"])),
          "Repaired": "TRUE", "NrCpusMask": str(m) if sc["ncpus"] > 0 else "0 - 2", "MPO": str(sc["mpo"]),
-         "FailAt": str(sc["failat"]) if sc["failat"] >= 0 else "0 - 1", "Mut": "{}", "CheckGrowWins": tla(bool(sc.get("growwins")))}
+         "FailAt": str(sc["failat"]) if sc["failat"] >= 0 else "0 - 1", "Mut": "{}", "CheckGrowWins": tla(bool(sc.get("growwins"))),
+         "Qsbr": tla(bool(sc.get("qsbr")))}
     c.update(over)
     return c
 
@@ -191,6 +193,8 @@ def run_env(sc, seed):
     env = {"VRT_MODE": "uniform" if seed % 3 == 2 else "pct", "VRT_DEPTH": 1 + seed % 4, "VRT_LEN": 400, "VRT_BUDGET": 30000}
     if sc["failat"] >= 0:
         env["VRT_CREATE_FAIL"] = sc["failat"]
+    if sc.get("qsbr"):
+        env["LR_QSBR"] = 1          # the driver's flavor behaves like QSBR (spec constant Qsbr)
     return env
 
 
@@ -397,7 +401,10 @@ def _controls(ctx, quick):
     lz = load_scenario("resize_lazy_seq")
     run_mc(ctx, lz, "ctl_o2", consts(lz, TSO="TRUE", Tracing="FALSE"), ["SPECIFICATION Spec", "INVARIANT QuiescentConvergedStrict", "CHECK_DEADLOCK FALSE"], 900,
            expect="invariant QuiescentConvergedStrict", what="O2 lost lazy resize (stale resize_initiated)")
-    muts = [("no_gp", "resize_rd", "free before grace period"), ("pub_first", "resize_rd", "size published before allocation")]
+    muts = [("no_gp", "resize_rd", "free before grace period"), ("pub_first", "resize_rd", "size published before allocation"),
+            # F6 / F7 as they were before their repair (QSBR: a reader blocks on resize_mutex while online): TLC must find the deadlock
+            ("reg_first", "resize_qsbr_lazy", "F6 unrepaired: do_resize_cb registers (online) before taking resize_mutex"),
+            ("on_lock", "resize_qsbr_2r", "F7 unrepaired: cds_lfht_resize blocks on resize_mutex as an online QSBR reader")]
     if not quick:
         muts += [("noclamp", "resize_seq_m4", "target not clamped to max_nr_buckets"),
                  ("no_mb", "resize_lazy_seq", "no fence between resize_initiated = 0 and the re-read of resize_target")]
@@ -407,7 +414,7 @@ def _controls(ctx, quick):
         cfg = SAFETY_CFG
         if mut == "noclamp":
             s = copy.deepcopy(s); s["threads"] = {"t1": [{"op": "resize", "ns": [5, "max+1"]}]}
-        run_mc(ctx, s, "ctl_" + mut, consts(s, TSO="TRUE", Tracing="FALSE", **over), cfg, 900, expect="invariant", what="mutation %s: %s" % (mut, what))
+        run_mc(ctx, s, "ctl_" + mut, consts(s, TSO="TRUE", Tracing="FALSE", **over), cfg, 900, expect="deadlock" if mut in ("reg_first", "on_lock") else "invariant", what="mutation %s: %s" % (mut, what))
     # arithmetic of partition_resize_helper (pure): checked as an assumption-free invariant of a trivial behaviour
     mod = gen_mc(seq, "part", consts(seq, TSO="FALSE", Tracing="FALSE", Prog=tla_fun({"t1": []})), cfg_lines=["SPECIFICATION Spec", "INVARIANT PartitionOK", "CHECK_DEADLOCK FALSE"])
     r = run_tlc(mod, workers=1, timeout=300, heap="2g")
@@ -558,7 +565,7 @@ def run(ctx):
     if COVERAGE:
         nt = ctx.extra.get("actions_never_taken", {})
         if nt:
-            never = set.intersection(*[set(v) for v in nt.values()]) - {"it_alloc2"}      # it_alloc2: mutation pub_first only
+            never = set.intersection(*[set(v) for v in nt.values()]) - {"it_alloc2", "w_oreg", "w_olock", "w_odo", "w_ounlock", "w_ounreg"}      # mutation-only labels (pub_first, reg_first)
             ctx.extra["actions_never_taken_in_any_scenario"] = sorted(never)
             ctx.extra["actions_never_taken"] = {k: len(v) for k, v in nt.items()}
             if never and not only:
